@@ -57,6 +57,23 @@ func progUniqueCtx(ctx string, base Beh) *LazyProgram {
 			e.noteDraw("v", v)
 			e.cur.Draws = fmt.Sprint(v)
 		}
+	case "custom-guarded":
+		// the draw is made by code that guards itself with recover() (a worker that must not die, a retry
+		// wrapper): a failure signalled with the methods of the T given to the generator function is on record
+		// all the same, like one signalled on the property's own T
+		p.Body = func(t *rapid.T, e *Env) {
+			g := rapid.Custom(func(it *rapid.T) uint64 {
+				x := rapid.Uint64().Draw(it, "x")
+				e.cur.Draws = fmt.Sprint(x)
+				e.Do(it, "custom-guarded", fmt.Sprint(x))
+				return x
+			})
+			func() {
+				defer func() { _ = recover() }()
+				v := g.Draw(t, "v")
+				e.noteDraw("v", v)
+			}()
+		}
 	case "custom2":
 		p.Body = func(t *rapid.T, e *Env) {
 			inner := rapid.Custom(func(it *rapid.T) uint64 {
